@@ -63,6 +63,19 @@ CHECKS = {
             "Rocq proof over a Gallina model + extracted-model differential correspondence",
             "pointers are modelled by identifiers under the well-formedness 'every pointer is the map entry for its ID', which the "
             "generators respect; the write/read-back half is exercised under C07."),
+    "C16": (True,
+            "Theorems for every non-negative int64 instant (no 100 h bound) and k in 1..3 fraction digits, separator ',' or '.': the "
+            "rendering has the format's grammar (two-digit minutes/seconds below 60, exactly k fraction digits), the reader maps it to "
+            "t - t mod unit (the latest representable instant not after t), re-formatting that value gives the same string, and the "
+            "value is monotone in t; STL (0 < fps < 100, t < 24 h): frame = latest frame not after t, below fps, reader within 1 ns, "
+            "second write identical. String-level model (Split/TrimSpace/Atoi/Itoa/StrPad) run against formatDuration/parseDuration "
+            "and the STL functions through verif hooks on boundaries +-1 ns and random instants; integer oracle in Go; thorough tier "
+            "sweeps every millisecond of 24 h and every STL (h,m,s,frame) on the implementation. The float64 expressions of "
+            "formatDuration are modelled in Flocq (frac_float) and compared with the implementation.",
+            "Rocq proof over a Gallina string-level model + extracted-model differential correspondence",
+            "field-width facts (two digits for values < 100, k digits for values < 10^k) are finite sweeps closed by vm_compute; "
+            "formatDurationSTL's float64 Hours()/Minutes()/Seconds() floors are modelled by integer division (justified by the "
+            "correspondence and the implementation sweep, not by a Flocq proof)."),
 }
 
 PENDING = "check not built yet in this session (work in progress; see DESIGN.md section 7 for the plan)"
